@@ -9,17 +9,22 @@ package main
 import (
 	"crypto/sha256"
 	"fmt"
+	"reflect"
 	"strconv"
 	"strings"
 
 	"verifharness/hx"
 
 	"github.com/iotaledger/hive.go/ds"
+	"github.com/iotaledger/hive.go/ds/orderedmap"
 	"github.com/iotaledger/hive.go/ds/serializableorderedmap"
 	"github.com/iotaledger/hive.go/serializer/v2/serix"
 )
 
 const universe = 6
+
+// keys of the long delete-heavy histories (genChurn) that drive the dictionary through its rebuilds
+const churnUniverse = 12
 const nRegs = 4
 
 type E = uint16
@@ -216,6 +221,36 @@ func (w *world) fail(oracle, api, detail string) {
 	w.r.Fail(oracle, detail, map[string]string{"api": api, "oracle": oracle})
 }
 
+// dictField reads a field of the ordered map's dictionary (a ShrinkingMap) through reflection: the bookkeeping of the
+// hash index (deletedKeys, options) is not reachable through the API, the Lean model (Hive/Model/OMapDict.lean) mirrors it.
+func dictField(om *orderedmap.OrderedMap[E, uint8], path ...string) (v reflect.Value, ok bool) {
+	defer func() {
+		if recover() != nil {
+			ok = false
+		}
+	}()
+	v = reflect.ValueOf(om).Elem().FieldByName("dictionary")
+	for _, name := range path {
+		for v.IsValid() && v.Kind() == reflect.Ptr {
+			v = v.Elem()
+		}
+		if !v.IsValid() {
+			return v, false
+		}
+		v = v.FieldByName(name)
+	}
+
+	return v, v.IsValid()
+}
+
+func dictDeletedKeys(om *orderedmap.OrderedMap[E, uint8]) int {
+	if v, ok := dictField(om, "deletedKeys"); ok && v.CanInt() {
+		return int(v.Int())
+	}
+
+	return -1
+}
+
 // omDump reads the real ordered map through ForEach/ForEachReverse/Size/Head/Tail and checks it against the
 // plain model (oracle "omap-order").
 func (w *world) omDump(api string) string {
@@ -243,11 +278,19 @@ func (w *world) omDump(api string) string {
 		w.fail("omap-order", api+"/headtail", fmt.Sprintf("Head %d:%d %v Tail %d:%d %v of %v", hk, hv, hok, tk, tv, tok, fwd))
 	}
 
-	return fmt.Sprintf("%s n=%d", got, w.om.Size())
+	// the hash index must know exactly the live keys, whatever rebuilds (shrinks) it went through
+	for k := E(0); k < churnUniverse; k++ {
+		_, gok := w.om.Get(k)
+		if gok != w.omO.has(k) || w.om.Has(k) != w.omO.has(k) {
+			w.fail("omap-order", api+"/index", fmt.Sprintf("Get(%d) exists=%v Has=%v, reference %v (chain %v)", k, gok, w.om.Has(k), w.omO.has(k), fwd))
+		}
+	}
+
+	return fmt.Sprintf("%s n=%d dk=%d", got, w.om.Size(), dictDeletedKeys(w.om.OrderedMap))
 }
 
 // arg resolves a ReadableSet argument: "@j" = register j, otherwise a literal list.
-func (w *world) arg(a string) ds.Set[E] {
+func (w *world) argSet(a string) ds.Set[E] {
 	if strings.HasPrefix(a, "@") {
 		j, _ := strconv.Atoi(a[1:])
 
@@ -255,6 +298,34 @@ func (w *world) arg(a string) ds.Set[E] {
 	}
 
 	return ds.NewSet(parseList(a)...)
+}
+
+// arg: a ReadableSet argument; besides the forms of argSet "~j" = the ReadOnly() view of register j (the live view, not a
+// copy) and "ro:LIST" = NewReadableSet(LIST...).
+func (w *world) arg(a string) ds.ReadableSet[E] {
+	if strings.HasPrefix(a, "~") {
+		j, _ := strconv.Atoi(a[1:])
+
+		return w.set[j%nRegs].ReadOnly()
+	}
+	if strings.HasPrefix(a, "ro:") {
+		return ds.NewReadableSet(parseList(a[3:])...)
+	}
+
+	return w.argSet(a)
+}
+
+// thrArgs: the variadic threshold argument; "_" = omitted, "a,b" = several (only the first counts).
+func thrArgs(t string) (args []int, effective int) {
+	if t == "_" {
+		return nil, 1
+	}
+	for _, p := range strings.Split(t, ",") {
+		n, _ := strconv.Atoi(p)
+		args = append(args, n)
+	}
+
+	return args, args[0]
 }
 
 func optKV(k E, v uint8, ok bool) string {
@@ -325,6 +396,20 @@ func (w *world) exec(op string) (ans string) {
 func (w *world) exec1(op string) string {
 	f := strings.Fields(op)
 	num := func(i int) int { n, _ := strconv.Atoi(f[i]); return n }
+	// "ro.<read method> r ..." = the method called on set[r].ReadOnly()
+	ro := strings.HasPrefix(f[0], "ro.")
+	if ro {
+		f[0] = f[0][3:]
+	}
+	rd := func(i int) ds.ReadableSet[E] {
+		if ro {
+			w.r.Count("receiver:readonly-view")
+
+			return w.set[i].ReadOnly()
+		}
+
+		return w.set[i]
+	}
 	switch f[0] {
 	// ------------------------------------------------------------------------------------------------- ordered map
 	case "mset":
@@ -388,6 +473,42 @@ func (w *world) exec1(op string) string {
 		return "[" + strings.Join(out, " ") + "]"
 	case "mdump":
 		return w.omDump("OrderedMap")
+	case "mnil":
+		// the methods that guard against a nil receiver
+		var nilMap *orderedmap.OrderedMap[E, uint8]
+		switch f[1] {
+		case "foreach":
+			return fmt.Sprint(nilMap.ForEach(func(E, uint8) bool { return false }))
+		case "foreachrev":
+			return fmt.Sprint(nilMap.ForEachReverse(func(E, uint8) bool { return false }))
+		case "size":
+			return fmt.Sprint(nilMap.Size())
+		case "isempty":
+			return fmt.Sprint(nilMap.IsEmpty())
+		case "clear":
+			nilMap.Clear()
+
+			return "ok"
+		case "clone":
+			if nilMap.Clone() == nil {
+				return "nil"
+			}
+
+			return "non-nil"
+		}
+
+		return "bad-op"
+	case "dictopts":
+		fresh := orderedmap.New[E, uint8]()
+		ratio, ok1 := dictField(fresh, "opts", "shrinkingThresholdRatio")
+		count, ok2 := dictField(fresh, "opts", "shrinkingThresholdCount")
+		if !ok1 || !ok2 {
+			return "unreadable"
+		}
+
+		return fmt.Sprintf("ratio=%v count=%v", ratio, count)
+	case "str":
+		return rd(num(1)).String()
 	case "mfestop":
 		// the consumer returns false at its n-th call (n = 0: at the first call, before recording anything)
 		n := num(2)
@@ -527,7 +648,7 @@ func (w *world) exec1(op string) string {
 
 		return fmt.Sprintf("%v | %s", got, showList(s.ToSlice()))
 	case "has":
-		s := w.set[num(1)]
+		s := rd(num(1))
 		got := s.Has(E(num(2)))
 		if got != toMap(s.ToSlice())[E(num(2))] {
 			w.fail("algebra", "Set.Has", "Has disagrees with ToSlice")
@@ -535,7 +656,7 @@ func (w *world) exec1(op string) string {
 
 		return fmt.Sprint(got)
 	case "size":
-		s := w.set[num(1)]
+		s := rd(num(1))
 		if s.Size() != len(s.ToSlice()) {
 			w.fail("algebra", "Set.Size", "Size disagrees with ToSlice")
 		}
@@ -546,7 +667,7 @@ func (w *world) exec1(op string) string {
 
 		return showList(w.set[num(1)].ToSlice())
 	case "slice":
-		sl := w.set[num(1)].ToSlice()
+		sl := rd(num(1)).ToSlice()
 		if !nodup(sl) {
 			w.fail("algebra", "Set.ToSlice", fmt.Sprintf("duplicates in %v", sl))
 		}
@@ -554,7 +675,7 @@ func (w *world) exec1(op string) string {
 		return showList(sl)
 	case "iter":
 		var out []E
-		it := w.set[num(1)].Iterator()
+		it := rd(num(1)).Iterator()
 		for it.HasNext() && len(out) < 100 {
 			out = append(out, it.Next())
 		}
@@ -564,7 +685,7 @@ func (w *world) exec1(op string) string {
 
 		return showList(out)
 	case "any":
-		s := w.set[num(1)]
+		s := rd(num(1))
 		e, ok := s.Any()
 		if ok != !s.IsEmpty() || (ok && !s.Has(e)) {
 			w.fail("algebra", "Set.Any", fmt.Sprintf("Any()=(%d,%v) on %v", e, ok, s.ToSlice()))
@@ -575,7 +696,7 @@ func (w *world) exec1(op string) string {
 
 		return strconv.Itoa(int(e))
 	case "is":
-		s := w.set[num(1)]
+		s := rd(num(1))
 		got := s.Is(E(num(2)))
 		sl := s.ToSlice()
 		if got != (len(sl) == 1 && sl[0] == E(num(2))) {
@@ -624,7 +745,7 @@ func (w *world) exec1(op string) string {
 		var adds, dels []E
 		api := "Set.Apply"
 		if f[0] == "apply" {
-			a, d := w.arg(f[2]), w.arg(f[3])
+			a, d := w.argSet(f[2]), w.argSet(f[3])
 			adds, dels = a.ToSlice(), d.ToSlice()
 			applied = s.Apply(ds.NewSetMutations[E]().WithAddedElements(a).WithDeletedElements(d))
 		} else {
@@ -660,7 +781,7 @@ func (w *world) exec1(op string) string {
 
 		return fmt.Sprintf("+%s -%s | %s", showList(ra), showList(rd), showList(after))
 	case "hasall", "equals", "intersect":
-		s, o := w.set[num(1)], w.arg(f[2])
+		s, o := rd(num(1)), w.arg(f[2])
 		a, b := s.ToSlice(), o.ToSlice()
 		switch f[0] {
 		case "hasall":
@@ -686,7 +807,7 @@ func (w *world) exec1(op string) string {
 			return showList(got)
 		}
 	case "filter":
-		s := w.set[num(1)]
+		s := rd(num(1))
 		lm := toMap(parseList(f[2]))
 		got := s.Filter(func(e E) bool { return lm[e] }).ToSlice()
 		var want []E
@@ -701,7 +822,7 @@ func (w *world) exec1(op string) string {
 
 		return showList(got)
 	case "clone":
-		s := w.set[num(1)]
+		s := rd(num(1))
 		c := s.Clone()
 		if !sameList(c.ToSlice(), s.ToSlice()) {
 			w.fail("algebra", "Set.Clone", fmt.Sprintf("Clone of %v = %v", s.ToSlice(), c.ToSlice()))
@@ -710,7 +831,7 @@ func (w *world) exec1(op string) string {
 
 		return showList(c.ToSlice())
 	case "enc":
-		s := w.set[num(1)]
+		s := rd(num(1))
 		b, err := s.Encode(w.api)
 		if err != nil {
 			return "err"
@@ -748,10 +869,12 @@ func (w *world) exec1(op string) string {
 
 		return "ok"
 	case "arcnew":
-		w.arcThr = num(1)
+		var targs []int
+		targs, w.arcThr = thrArgs(f[1])
+		w.r.Count(fmt.Sprintf("threshold:args=%d,%s", len(targs), thrClass(w.arcThr)))
 		w.arcM = ds.NewSetMutations[E]()
-		w.arcAdd = w.ar.AddedElementsCollector(w.arcM, w.arcThr)
-		w.arcSub = w.ar.SubtractedElementsCollector(w.arcM, w.arcThr)
+		w.arcAdd = w.ar.AddedElementsCollector(w.arcM, targs...)
+		w.arcSub = w.ar.SubtractedElementsCollector(w.arcM, targs...)
 		w.arc0 = map[E]int{}
 		for k, v := range w.arO {
 			w.arc0[k] = v
@@ -792,7 +915,8 @@ func (w *world) exec1(op string) string {
 		return fmt.Sprintf("+%s -%s", showList(ra), showList(rd))
 	case "aradd", "arsub":
 		a, d := ds.NewSet(parseList(f[1])...), ds.NewSet(parseList(f[2])...)
-		thr := num(3)
+		targs, thr := thrArgs(f[3])
+		w.r.Count(fmt.Sprintf("threshold:args=%d,%s", len(targs), thrClass(thr)))
 		old := map[E]bool{}
 		for e := E(0); e < universe; e++ {
 			old[e] = w.arO[e] >= thr
@@ -800,10 +924,10 @@ func (w *world) exec1(op string) string {
 		var m ds.SetMutations[E]
 		sign := 1
 		if f[0] == "aradd" {
-			m = w.ar.Add(ds.NewSetMutations[E]().WithAddedElements(a).WithDeletedElements(d), thr)
+			m = w.ar.Add(ds.NewSetMutations[E]().WithAddedElements(a).WithDeletedElements(d), targs...)
 		} else {
 			sign = -1
-			m = w.ar.Subtract(ds.NewSetMutations[E]().WithAddedElements(a).WithDeletedElements(d), thr)
+			m = w.ar.Subtract(ds.NewSetMutations[E]().WithAddedElements(a).WithDeletedElements(d), targs...)
 		}
 		w.arc0 = nil // the counts now change outside the collector session: its oracle no longer applies
 		for _, e := range a.ToSlice() {
@@ -856,6 +980,19 @@ func (w *world) exec1(op string) string {
 	return "bad-op"
 }
 
+func thrClass(t int) string {
+	switch {
+	case t < 0:
+		return "negative"
+	case t == 0:
+		return "zero"
+	case t <= 3:
+		return "small"
+	}
+
+	return "large"
+}
+
 // resyncOM rebuilds the plain reference of the ordered-map object from the real one (after Decode).  What Decode does
 // to entries the receiver already had is not part of the property (the code Sets into the receiver without clearing
 // it; the Lean model mirrors that and the correspondence compares it), so no oracle is evaluated here.
@@ -897,6 +1034,88 @@ func genArg(rng *hx.Rng, self int) string {
 	}
 
 	return commaList(genList(rng, 4))
+}
+
+// genArgRO: an argument of type ReadableSet — additionally the ReadOnly() view of a register (of the receiver itself, too)
+// and NewReadableSet literals.
+func genArgRO(rng *hx.Rng, self int) string {
+	switch rng.Intn(12) {
+	case 0:
+		return fmt.Sprintf("~%d", self)
+	case 1:
+		return fmt.Sprintf("~%d", rng.Intn(nRegs))
+	case 2:
+		return "ro:" + commaList(genList(rng, 4))
+	}
+
+	return genArg(rng, self)
+}
+
+// genThr: the variadic threshold — usually 1..3, sometimes omitted, zero, negative, large or given twice.
+func genThr(rng *hx.Rng) string {
+	switch rng.Intn(12) {
+	case 0:
+		return "_"
+	case 1:
+		return "0"
+	case 2:
+		return fmt.Sprint(-rng.Range(1, 2))
+	case 3:
+		return fmt.Sprintf("%d,%d", rng.Range(1, 3), rng.Range(0, 5))
+	case 4:
+		return fmt.Sprint(rng.Range(4, 6))
+	}
+
+	return fmt.Sprint(rng.Range(1, 3))
+}
+
+// roPrefix: a read method is called on the set itself or (1 in 5) on its ReadOnly() view.
+func roPrefix(rng *hx.Rng) string {
+	if rng.Chance(1, 5) {
+		return "ro."
+	}
+
+	return ""
+}
+
+// genChurn: a long history of mostly Set/Delete on up to 12 keys with few Clears: the dictionary's deletedKeys counter
+// passes the shrinking thresholds (100 deletions and 10x the size) and the hash index is rebuilt, several times.
+func genChurn(rng *hx.Rng) []string {
+	u := rng.Range(3, churnUniverse)
+	n := rng.Range(300, 700)
+	live := map[int]bool{}
+	var ops []string
+	for i := 0; i < n; i++ {
+		k := rng.Intn(u)
+		switch x := rng.Intn(900); {
+		case x < 405:
+			for try := 0; try < 2 && live[k]; try++ {
+				k = rng.Intn(u)
+			}
+			live[k] = true
+			ops = append(ops, fmt.Sprintf("mset %d %d", k, rng.Intn(10)))
+		case x < 810:
+			for try := 0; try < 3 && !live[k]; try++ {
+				k = rng.Intn(u)
+			}
+			delete(live, k)
+			ops = append(ops, fmt.Sprintf("mdel %d", k))
+		case x < 811:
+			live = map[int]bool{}
+			ops = append(ops, "mclear")
+		case x < 840:
+			ops = append(ops, fmt.Sprintf("mwalk %s 0:d%d 1:d%d,s%d.%d 2:d%d", hx.Pick(rng, []string{"fwd", "rev"}), rng.Intn(u), rng.Intn(u), rng.Intn(u), rng.Intn(10), rng.Intn(u)))
+			live = map[int]bool{} // unknown now: deletions are tried on any key
+		case x < 855:
+			ops = append(ops, hx.Pick(rng, []string{"mclone", "menc", "mfer", "mhead", "mtail"}))
+		case x < 879:
+			ops = append(ops, fmt.Sprintf("mget %d", k))
+		default:
+			ops = append(ops, fmt.Sprintf("mhas %d", k))
+		}
+	}
+
+	return ops
 }
 
 func genVisits(rng *hx.Rng) string {
@@ -1006,7 +1225,8 @@ func genCase(rng *hx.Rng, n int) []string {
 		case x < 195:
 			ops = append(ops, fmt.Sprintf("mhas %d", e))
 		case x < 205:
-			ops = append(ops, hx.Pick(rng, []string{"mhead", "mtail", "msize", "mfe", "mfer", "mdump"}))
+			ops = append(ops, hx.Pick(rng, []string{"mhead", "mtail", "msize", "mfe", "mfer", "mdump",
+				"mnil " + hx.Pick(rng, []string{"foreach", "foreachrev", "size", "isempty", "clear", "clone"})}))
 		case x < 212:
 			ops = append(ops, "mclear")
 		case x < 225:
@@ -1025,21 +1245,21 @@ func genCase(rng *hx.Rng, n int) []string {
 		case x < 490:
 			ops = append(ops, fmt.Sprintf("del %d %d", r, e))
 		case x < 510:
-			ops = append(ops, fmt.Sprintf("has %d %d", r, e))
+			ops = append(ops, fmt.Sprintf("%shas %d %d", roPrefix(rng), r, e))
 		case x < 525:
-			ops = append(ops, fmt.Sprintf("%s %d", hx.Pick(rng, []string{"size", "slice", "iter", "any"}), r))
+			ops = append(ops, fmt.Sprintf("%s%s %d", roPrefix(rng), hx.Pick(rng, []string{"size", "slice", "iter", "any", "str"}), r))
 		case x < 530:
 			ops = append(ops, fmt.Sprintf("clear %d", r))
 		case x < 545:
-			ops = append(ops, fmt.Sprintf("is %d %d", r, e))
+			ops = append(ops, fmt.Sprintf("%sis %d %d", roPrefix(rng), r, e))
 		case x < 560:
 			ops = append(ops, fmt.Sprintf("new %d %s", r, commaList(genList(rng, 5))))
 		case x < 610:
-			ops = append(ops, fmt.Sprintf("addall %d %s", r, genArg(rng, r)))
+			ops = append(ops, fmt.Sprintf("addall %d %s", r, genArgRO(rng, r)))
 		case x < 660:
-			ops = append(ops, fmt.Sprintf("delall %d %s", r, genArg(rng, r)))
+			ops = append(ops, fmt.Sprintf("delall %d %s", r, genArgRO(rng, r)))
 		case x < 710:
-			ops = append(ops, fmt.Sprintf("replace %d %s", r, genArg(rng, r)))
+			ops = append(ops, fmt.Sprintf("replace %d %s", r, genArgRO(rng, r)))
 		case x < 770:
 			a, d := genArg(rng, r), genArg(rng, r)
 			if d == fmt.Sprintf("@%d", r) && a != d {
@@ -1051,26 +1271,26 @@ func genCase(rng *hx.Rng, n int) []string {
 		case x < 810:
 			ops = append(ops, fmt.Sprintf("compute %d %s %s", r, commaList(genList(rng, 3)), commaList(genList(rng, 4))))
 		case x < 830:
-			ops = append(ops, fmt.Sprintf("hasall %d %s", r, genArg(rng, r)))
+			ops = append(ops, fmt.Sprintf("%shasall %d %s", roPrefix(rng), r, genArgRO(rng, r)))
 		case x < 855:
-			ops = append(ops, fmt.Sprintf("equals %d %s", r, genArg(rng, r)))
+			ops = append(ops, fmt.Sprintf("%sequals %d %s", roPrefix(rng), r, genArgRO(rng, r)))
 		case x < 875:
-			ops = append(ops, fmt.Sprintf("intersect %d %s", r, genArg(rng, r)))
+			ops = append(ops, fmt.Sprintf("%sintersect %d %s", roPrefix(rng), r, genArgRO(rng, r)))
 		case x < 890:
-			ops = append(ops, fmt.Sprintf("filter %d %s", r, commaList(genList(rng, 4))))
+			ops = append(ops, fmt.Sprintf("%sfilter %d %s", roPrefix(rng), r, commaList(genList(rng, 4))))
 		case x < 905:
-			ops = append(ops, fmt.Sprintf("clone %d %d", r, (r+1+rng.Intn(nRegs-1))%nRegs))
+			ops = append(ops, fmt.Sprintf("%sclone %d %d", roPrefix(rng), r, (r+1+rng.Intn(nRegs-1))%nRegs))
 		case x < 920:
-			ops = append(ops, fmt.Sprintf("enc %d", r))
+			ops = append(ops, fmt.Sprintf("%senc %d", roPrefix(rng), r))
 		case x < 940:
 			ops = append(ops, fmt.Sprintf("dec %d %s", r, hx.Hex(mangle(rng, encodeLit(genList(rng, 4), false, rng)))))
 		// arithmetic
 		case x < 945:
 			ops = append(ops, "arnew")
 		case x < 975:
-			ops = append(ops, fmt.Sprintf("aradd %s %s %d", commaList(genList(rng, 3)), commaList(genList(rng, 3)), rng.Range(1, 3)))
+			ops = append(ops, fmt.Sprintf("aradd %s %s %s", commaList(genList(rng, 3)), commaList(genList(rng, 3)), genThr(rng)))
 		default:
-			ops = append(ops, fmt.Sprintf("arsub %s %s %d", commaList(genList(rng, 3)), commaList(genList(rng, 3)), rng.Range(1, 3)))
+			ops = append(ops, fmt.Sprintf("arsub %s %s %s", commaList(genList(rng, 3)), commaList(genList(rng, 3)), genThr(rng)))
 		}
 	}
 
@@ -1080,7 +1300,7 @@ func genCase(rng *hx.Rng, n int) []string {
 // genCollectors: one SetMutations object fed by the collector functions with repeated elements of a 3-element universe,
 // so that counts pass the threshold in both directions several times.
 func genCollectors(rng *hx.Rng) []string {
-	ops := []string{fmt.Sprintf("arcnew %d", rng.Range(1, 3))}
+	ops := []string{"arcnew " + genThr(rng)}
 	bias := rng.Range(3, 7) // out of 10: probability of an added-collector call
 	for i := rng.Range(8, 24); i > 0; i-- {
 		if i%7 == 0 {
@@ -1101,6 +1321,7 @@ func runCase(r *hx.Run, sub uint64, ops []string) {
 	w := newWorld(r)
 	kinds := map[string]bool{}
 	changes := 0
+	lastDk, shrinks := 0, 0
 	for _, op := range ops {
 		if op == "" {
 			continue
@@ -1110,6 +1331,14 @@ func runCase(r *hx.Run, sub uint64, ops []string) {
 		k := strings.Fields(op)[0]
 		kinds[k] = true
 		r.Count("op:" + k)
+		if i := strings.LastIndex(ans, " dk="); i >= 0 {
+			dk, _ := strconv.Atoi(ans[i+4:])
+			if k == "mdel" && strings.HasPrefix(ans, "true") && dk == 0 && lastDk > 0 {
+				shrinks++
+				r.Count("dict:rebuilt")
+			}
+			lastDk = dk
+		}
 		if strings.Contains(ans, "true") || strings.Contains(ans, "+[") && !strings.HasPrefix(ans, "+[] -[]") {
 			changes++
 		}
@@ -1117,6 +1346,7 @@ func runCase(r *hx.Run, sub uint64, ops []string) {
 			r.Count("ans:" + strings.Fields(ans)[0])
 		}
 	}
+	r.Count(fmt.Sprintf("dict:rebuilds-per-case=%d", shrinks))
 	if len(kinds) >= 5 && changes >= 3 {
 		h := sha256.Sum256([]byte(strings.Join(ops, "\n")))
 		r.Nontrivial(string(h[:8]))
@@ -1169,6 +1399,11 @@ func main() {
 		}
 		runCase(r, sub, ops)
 	}
+	// long delete-heavy histories: the dictionary is rebuilt (ShrinkingMap.shrink) under the ordered map
+	for i := 0; i < 40*r.Scale; i++ {
+		rng, sub := r.Rng.Fork()
+		runCase(r, sub, genChurn(rng))
+	}
 	runConcurrent(r)
 	r.Finish()
 }
@@ -1201,6 +1436,12 @@ var corpus = [][]string{
 	{"arcnew 1", "arc + 0", "arc + 0", "arc - 0", "arc - 0", "arc - 0", "arc + 0", "arc + 0"},
 	{"arcnew 2", "arc + 1", "arc + 1", "arc + 1", "arc - 1", "arc - 1", "arc + 1", "arc - 2", "arc + 2", "arc + 2", "arc + 2", "arc - 1", "arc - 1"},
 	{"aradd 0,1 - 1", "aradd 0 - 1", "arcnew 2", "arc - 0", "arc + 0", "arc - 0", "arc - 0", "arc + 1", "arc - 1", "arc + 0", "arc + 0"},
+	// nil receivers, dictionary options, String, read-only views, NewReadableSet, variadic thresholds
+	{"dictopts", "mnil foreach", "mnil foreachrev", "mnil size", "mnil isempty", "mnil clear", "mnil clone"},
+	{"new 0 3,1,2", "str 0", "ro.str 0", "new 1 -", "str 1", "ro.equals 0 ~0", "equals 0 ~0", "addall 1 ~0", "add 0 5", "ro.slice 0", "delall 0 ~0", "ro.size 0",
+		"hasall 1 ro:1,2", "ro.hasall 1 ro:1,4", "replace 0 ro:4,4,2", "replace 0 ~0", "ro.intersect 0 ~1", "ro.clone 0 3", "ro.enc 1", "ro.iter 1", "ro.any 1", "ro.is 1 3"},
+	{"aradd 1,2 - _", "aradd 1 2 0", "arsub 1,2,3 - 0", "arsub 3 - -1", "aradd 3,4 - -1", "aradd 1 - 2,9", "arsub 1 - 2,0", "aradd 0,1,2 - 5",
+		"arcnew _", "arc + 4", "arc - 4", "arc - 4", "arcnew 0", "arc - 5", "arc + 5", "arc + 5", "arcnew -1", "arc - 5", "arc - 5", "arc - 5", "arc + 5"},
 	// algebra
 	{"new 0 1,2,3", "new 1 3,2,1", "equals 0 @1", "hasall 0 2,3", "hasall 0 2,4", "intersect 0 5,3,1", "filter 0 2,3,9", "clone 0 2", "is 0 1", "new 3 4", "is 3 4", "any 3", "any 2", "iter 1"},
 	// forced schedules and one stress run of every kind
